@@ -228,6 +228,47 @@ def rule_L5(ctx) -> None:
     rule_L5d(ctx, "L5")
 
 
+def rule_L6(ctx, rule: str = "L6") -> None:
+    """per-field scratch state starts fresh for every field: a local that the field loop of dump / __len__ both changes in place
+    (`buf += ..`, `buf.append(..)`) and reads (`len(buf)`, passes on) is bound inside the loop before it is used - bound once
+    above the loop it still holds the payloads of the fields handled earlier, and every later packed field is measured / written
+    together with them.  (The running total and the output stream are only ever added to / written to, never read in the loop.)"""
+    mod = ctx.repo.mod(M_INIT)
+    n = 0
+    for q in ("Message.dump", "Message.__len__"):
+        fn = mod.func(q)
+        ctx.analysed(q)
+        loops = [lp for lp in ast.walk(fn) if isinstance(lp, ast.For) and "meta_by_field_name" in ast.unparse(lp.iter)]
+        if not loops:
+            # the field loop may have been moved into a generator helper: nothing local survives between fields there
+            ctx.proved(rule, f"{q.split('.')[-1]}:scratch-state-fresh-per-field", mod.loc(fn), "no field loop in this function")
+            n += 1
+            continue
+        lp = loops[0]
+        inside = list(ast.walk(lp))
+        mutated = {x.target.id for x in inside if isinstance(x, ast.AugAssign) and isinstance(x.target, ast.Name)} | {
+            x.func.value.id for x in inside if isinstance(x, ast.Call) and isinstance(x.func, ast.Attribute) and isinstance(x.func.value, ast.Name)
+            and x.func.attr in ("append", "extend", "add", "update", "write", "insert")}
+        aug_values = {id(x.target) for x in inside if isinstance(x, ast.AugAssign)}
+        method_recv = {id(x.func.value) for x in inside if isinstance(x, ast.Call) and isinstance(x.func, ast.Attribute)}
+        read = {x.id for x in inside if isinstance(x, ast.Name) and isinstance(x.ctx, ast.Load) and id(x) not in method_recv}
+        bound_inside = {t.id for x in inside if isinstance(x, (ast.Assign, ast.AnnAssign)) for t in (x.targets if isinstance(x, ast.Assign) else [x.target]) if isinstance(t, ast.Name)} | {
+            x.id for f_ in inside if isinstance(f_, (ast.For, ast.comprehension)) for x in ast.walk(f_.target) if isinstance(x, ast.Name)}
+        params = {a.arg for a in fn.args.args}
+        stale = sorted(v for v in mutated & read if v not in bound_inside and v not in params)
+        n += 1
+        name = f"{q.split('.')[-1]}:scratch-state-fresh-per-field"
+        if stale:
+            v = stale[0]
+            use = next(x for x in inside if isinstance(x, ast.Name) and x.id == v and isinstance(x.ctx, ast.Load) and id(x) not in method_recv)
+            ctx.refuted(rule, name, v, mod.loc(use), f"{q.split('.')[-1]}: `{v}` is changed in place and read inside the field loop but bound only above it: from the second field on it still "
+                        "contains what the earlier fields put there (two non-empty packed fields: the second is measured / written together with the first)",
+                        "M(a=[1, 2, 3], b=[1.0]) with two packed repeated fields: len(m) != len(bytes(m))")
+        else:
+            ctx.proved(rule, name, mod.loc(lp), f"in-place locals read in the loop: {sorted(mutated & read) or 'none'}, each bound inside it")
+    ctx.floor(rule, "emitters", n, 2)
+
+
 def rule_L5d(ctx, rule: str = "L5") -> None:
     """the delimiter: under delimit == SIZE_DELIMITED everything dump writes after the size prefix is what the prefix counts -
     the prefix is len(self) (whose agreement with the written bytes is L1), or the size of a local buffer that is then the only
@@ -305,7 +346,7 @@ def rule_L5d(ctx, rule: str = "L5") -> None:
 
 def run(ctx) -> None:
     ctx.oracle("declared correspondence phi: write(e)->size+=L(e); encode_varint->size_varint; _serialize_single->_len_single; _preprocess_single->_len_preprocessed_single")
-    for name, fn in (("L1", rule_L1), ("L2", rule_L2), ("L3", rule_L3), ("L4", varint.rule_L4), ("L4b", lambda c: varint.rule_N1b(c, "L4")), ("L5", rule_L5)):
+    for name, fn in (("L1", rule_L1), ("L2", rule_L2), ("L3", rule_L3), ("L4", varint.rule_L4), ("L4b", lambda c: varint.rule_N1b(c, "L4")), ("L5", rule_L5), ("L6", rule_L6)):
         ctx.rules_run.append(name)
         fn(ctx)
     ctx.floor("L1", "type instances", len([o for o in ctx.obs if o.rule == "L1"]), 1)
